@@ -62,7 +62,10 @@ def prepare_overlay_expression(
     if not isinstance(spec, dict):
         return PermFail(message=f"Malformed {location}, expected a mapping")
 
-    overlay_index, overlay_values = _overlay_indexer(spec=spec, base=0)
+    try:
+        overlay_index, overlay_values = _overlay_indexer(spec=spec, base=0)
+    except RecursionError:
+        return PermFail(message=f"Structural error in {location}, it is nested too deeply.")
 
     match prepare_expression(cel_env=cel_env, spec=overlay_values, location=location):
         case None:
